@@ -711,6 +711,10 @@ func (d Decimal) Uint32() (uint32, bool) {
 	}
 
 	if d.Signbit() {
+		if i, ok := Abs(d).Uint32(); ok && i == 0 {
+			return 0, true
+		}
+
 		return 0, false
 	}
 
@@ -766,6 +770,10 @@ func (d Decimal) Uint64() (uint64, bool) {
 	}
 
 	if d.Signbit() {
+		if i, ok := Abs(d).Uint64(); ok && i == 0 {
+			return 0, true
+		}
+
 		return 0, false
 	}
 
